@@ -773,7 +773,7 @@ func runHistory(path []Op, verbose, cluster bool) histResult {
 // ---- alphabet ----
 
 type abstractState struct {
-	failedInval bool // some Exec ran during an outage: a retry task exists or existed
+	failedInval int // Execs that ran during an outage: retry tasks exist or existed
 	db       map[string]string
 	failNext bool
 	outage   bool
@@ -804,7 +804,7 @@ func foldPath(path []Op) abstractState {
 			case "take", "qrow", "qidx", "get", "write", "del", "writec", "delc", "set", "setx":
 				a.outOps++
 				if o.K == "write" || o.K == "del" || o.K == "writec" || o.K == "delc" {
-					a.failedInval = true
+					a.failedInval++
 				}
 			}
 		}
@@ -812,10 +812,15 @@ func foldPath(path []Op) abstractState {
 	return a
 }
 
-func alphabet(cluster bool) func(depth int, path []Op) []Op {
+// plainUnderOutage: offer Exec with a background context during outages in addition to the
+// request-context variant (quick offers only the latter: it is the stronger environment, the
+// unchanged code ignores the context in the retry).
+func alphabet(cluster bool, maxFailedInval int, plainUnderOutage bool) func(depth int, path []Op) []Op {
 	return func(depth int, path []Op) []Op {
 		a := foldPath(path)
 		cacheOK := !a.outage || a.outOps < maxOutageOps
+		// bounded fault placement: at most maxFailedInval invalidations fail per history
+		execOK := !a.outage || a.failedInval < maxFailedInval
 		var ops []Op
 		add := func(o Op) { ops = append(ops, o) }
 		if cacheOK {
@@ -827,6 +832,9 @@ func alphabet(cluster bool) func(depth int, path []Op) []Op {
 			add(Op{K: "take", Key: "k2"})
 			add(Op{K: "get", Key: "k2"})
 			for _, k := range []string{"k1", "k2"} {
+				if !execOK || (a.outage && !plainUnderOutage) {
+					break
+				}
 				for _, v := range []string{"v1", "v2"} {
 					if a.db[k] == v {
 						continue // rewriting the same value adds nothing the state key does not already merge
@@ -835,7 +843,7 @@ func alphabet(cluster bool) func(depth int, path []Op) []Op {
 				}
 				add(Op{K: "del", Key: k})
 			}
-			if a.outage {
+			if a.outage && execOK {
 				// the same writes issued with a request-scoped context that is cancelled after the
 				// call: only under an outage can the context outlive the call (in the retry task)
 				for _, k := range []string{"k1", "k2"} {
@@ -859,7 +867,7 @@ func alphabet(cluster bool) func(depth int, path []Op) []Op {
 		half := int(expiry / time.Second / 2)
 		full := int(expiry / time.Second)
 		nf := int(notFoundExpiry / time.Second)
-		if a.failedInval {
+		if a.failedInval > 0 {
 			// one second = one tick of the cleaner wheel; offered once an invalidation has failed
 			// (before that it only multiplies TTL values: the other advances already cover expiry)
 			add(Op{K: "tick"})
@@ -901,6 +909,10 @@ func pathString(p []Op) string {
 }
 
 func searchHistories(cfg *vlib.Config, r *vlib.Report, name string, cluster bool, depth int, deadline time.Time) {
+	maxFailedInval := 1
+	if cfg.Thorough() {
+		maxFailedInval = 2
+	}
 	classes := map[string]int{}
 	tag := ""
 	if cluster {
@@ -911,7 +923,7 @@ func searchHistories(cfg *vlib.Config, r *vlib.Report, name string, cluster bool
 		Cfg:      cfg,
 		MaxDepth: depth,
 		Deadline: deadline,
-		Alphabet: alphabet(cluster),
+		Alphabet: alphabet(cluster, maxFailedInval, cfg.Thorough()),
 		Run: func(path []Op) vlib.RunResult {
 			res := runHistory(path, false, cluster)
 			if res.fail != nil && res.fail.class != "harness" {
